@@ -196,6 +196,7 @@ package mocker
 //@   assigns textmem, perm, mutex_held[addr(patch.patchesLock)], rw_wheld[addr(memory.memoryAccessLock)], guard_cancelled[self], anyfield(iface.PContext, canceled), anyfield(hack.Iface, Tab), anyfield(hack.Iface, Data)
 //@   ensures cancelled: guard_cancelled[self]
 //@ extern func (github.com/tencent/goom.MockGuard).Apply
+//@   dispatch
 //@   assigns textmem, perm, mutex_held[addr(patch.patchesLock)], rw_wheld[addr(memory.memoryAccessLock)], guard_cancelled[self], anyfield(patch.Guard, applied)
 //@   ensures applied: !guard_cancelled[self]
 
@@ -233,15 +234,59 @@ package mocker
 //@ ghost var stub_of map[*baseMocker]interface{}
 //@ pure func mocker_inv(m *baseMocker) bool = m != nil && (m.when != nil ==> running[m] == stub_of[m] && !m.canceled)
 
-// installing an implementation on the target (proxy layer + patch layer; verified under C01/C02/C13)
-//@ trusted func (m *DefMocker) doApply
-//@   props C12
-//@   requires receiver: m != nil && m.baseMocker != nil
-//@   assigns m.baseMocker.guard, m.baseMocker.imp, m.baseMocker.funcDef, running[m.baseMocker], textmem, perm, mapof(patch.patches), anyfield(patch.patch, guard), anyfield(patch.Guard, applied),
-//@     | mutex_held[addr(patch.patchesLock)], rw_wheld[addr(memory.memoryAccessLock)], rw_rheld[addr(memory.memoryAccessLock)]
+// ---- C01/C02/C12 at the mocker layer: what "the target runs imp" means in the text segment ------------------------------
+// diverted_to(g, target, callback): g is applied, guards the code address of target, and the entry window holds
+// nop; movabs rdx, &funcvalue(callback); jmp [rdx].
+//@ pure func diverted_somewhere(g *patch.Guard, callback interface{}) bool = g != nil && patch.guard_wf(g) && g.applied
+//@   | && patch.window_is(g.origin, g.jumpBytes) && x86_is_movabs_rdx_jmp(g.jumpBytes, 1) && x86_movabs_rdx_imm(g.jumpBytes, 1) == bytecode.funcvalue_word(value_of(callback))
+//@ pure func diverted_to(g *patch.Guard, target reflect.Value, callback interface{}) bool = diverted_somewhere(g, callback) && patch.is_target_of(g.origin, target)
+// a method value (name ending in "-fm") is resolved by symbol name instead of by its code pointer
+//@ pure func name_of_func(fd interface{}) string = func_name(func_at(rv_pointer(value_of(fd))))
+//@ pure func resolved_by_name(fd interface{}) bool = !patch.generics_name(name_of_func(fd)) && str_has_suffix(name_of_func(fd), "-fm")
+//@ pure func patch_state_ok() bool = patch.table_inv() && !patch.locked() && forall k uintptr :: has(patch.patches, k) ==> alive(patch.patches[k])
+
+//@ func (m *baseMocker) applyByFunc
+//@   props C01 C02 C12 C13
+//@   requires receiver: m != nil
+//@   requires patch_state: patch_state_ok()
+//@   assigns m.guard, m.imp, m.funcDef, textmem, perm, mapof(patch.patches), anyfield(patch.patch, guard), anyfield(patch.Guard, applied),
+//@     | mutex_held[addr(patch.patchesLock)], rw_wheld[addr(memory.memoryAccessLock)], rw_rheld[addr(memory.memoryAccessLock)], placeholder_target[m.origin], varval
+//@   ensures installed: m.guard != nil && typeof(m.guard) == typeid(*patchMockGuard) && unbox(m.guard, *patchMockGuard) != nil
+//@     | && diverted_to(unbox(m.guard, *patchMockGuard).patchGuard, old(proxy.func_target(funcDef)), callback)
+//@   ensures recorded: m.imp == callback && m.funcDef == funcDef
+//@   ensures table_kept: patch.table_inv() && !patch.locked()
+//@   panics_only_if rejected: true
+//@   ensures_on_panic nothing_left_diverted: patch.panic_frame() && patch.table_inv() && !patch.locked()
+
+// the "-fm" (method value) path resolves the target by symbol name: the lookup is C10's, the rest as above
+//@ trusted func (m *baseMocker) applyByName
+//@   props C01 C02 C12
+//@   requires receiver: m != nil
+//@   assigns m.guard, m.imp, textmem, perm, mapof(patch.patches), anyfield(patch.patch, guard), anyfield(patch.Guard, applied),
+//@     | mutex_held[addr(patch.patchesLock)], rw_wheld[addr(memory.memoryAccessLock)], rw_rheld[addr(memory.memoryAccessLock)], placeholder_target[m.origin], varval
+//@   ensures recorded: m.imp == callback
+//@   ensures installed: m.guard != nil && typeof(m.guard) == typeid(*patchMockGuard) && unbox(m.guard, *patchMockGuard) != nil
+//@     | && diverted_somewhere(unbox(m.guard, *patchMockGuard).patchGuard, callback)
+//@   ensures table_kept: patch.table_inv() && !patch.locked()
 //@   may_panic
+
+// installing an implementation on the target: whatever path is taken the mocker records what it installed, and on the
+// ordinary path (not a method value) the target's entry window is diverted to it (C01 mechanism, end to end from
+// the mocker API down to the bytes); imp is installed as it is unless console debug logging wraps it (C19).
+//@ func (m *DefMocker) doApply
+//@   props C12 C01 C02
+//@   requires receiver: m != nil && m.baseMocker != nil
+//@   requires patch_state: patch_state_ok()
+//@   assigns m.baseMocker.guard, m.baseMocker.imp, m.baseMocker.funcDef, running[m.baseMocker], textmem, perm, mapof(patch.patches), anyfield(patch.patch, guard), anyfield(patch.Guard, applied),
+//@     | mutex_held[addr(patch.patchesLock)], rw_wheld[addr(memory.memoryAccessLock)], rw_rheld[addr(memory.memoryAccessLock)], placeholder_target[m.baseMocker.origin], varval
+//@   ghost_set running[m.baseMocker] = imp
 //@   ensures target_runs_it: running[m.baseMocker] == imp
-//@   ensures imp_recorded_unless_debug_wrapped: true
+//@   ensures installed_as_given_unless_debug_wrapped: m.baseMocker.imp == imp || logger.ConsoleLevel >= logger.DebugLevel
+//@   ensures entry_diverted_to_what_was_recorded: m.baseMocker.guard != nil && typeof(m.baseMocker.guard) == typeid(*patchMockGuard) && unbox(m.baseMocker.guard, *patchMockGuard) != nil
+//@     | && diverted_somewhere(unbox(m.baseMocker.guard, *patchMockGuard).patchGuard, m.baseMocker.imp)
+//@     | && (!old(resolved_by_name(m.funcDef)) ==> patch.is_target_of(unbox(m.baseMocker.guard, *patchMockGuard).patchGuard.origin, old(proxy.func_target(m.funcDef))))
+//@   ensures table_kept: patch.table_inv() && !patch.locked()
+//@   panics_only_if rejected: true
 
 //@ trusted func CreateWhen
 //@   props C12
@@ -268,24 +313,35 @@ package mocker
 //@   may_panic
 
 //@ func (m *DefMocker) Apply
-//@   props C12
+//@   props C12 C01
 //@   requires receiver: m != nil && m.baseMocker != nil
+//@   requires patch_state: patch_state_ok()
 //@   assigns m.baseMocker.when, m.baseMocker.guard, m.baseMocker.imp, m.baseMocker.funcDef, running[m.baseMocker], textmem, perm, mapof(patch.patches), anyfield(patch.patch, guard), anyfield(patch.Guard, applied),
-//@     | mutex_held[addr(patch.patchesLock)], rw_wheld[addr(memory.memoryAccessLock)], rw_rheld[addr(memory.memoryAccessLock)]
+//@     | mutex_held[addr(patch.patchesLock)], rw_wheld[addr(memory.memoryAccessLock)], rw_rheld[addr(memory.memoryAccessLock)], placeholder_target[m.baseMocker.origin], varval
 //@   ensures callback_supersedes_stubs: running[m.baseMocker] == callback
 //@   ensures later_stubs_will_be_applied: mocker_inv(m.baseMocker) || m.baseMocker.canceled
+//@   ensures entry_diverted_to_the_latest_instruction: m.baseMocker.guard != nil && typeof(m.baseMocker.guard) == typeid(*patchMockGuard) && unbox(m.baseMocker.guard, *patchMockGuard) != nil
+//@     | && diverted_somewhere(unbox(m.baseMocker.guard, *patchMockGuard).patchGuard, m.baseMocker.imp)
+//@     | && (!old(resolved_by_name(m.funcDef)) ==> patch.is_target_of(unbox(m.baseMocker.guard, *patchMockGuard).patchGuard.origin, old(proxy.func_target(m.funcDef))))
+//@   ensures callback_installed_as_given_unless_debug_wrapped: m.baseMocker.imp == callback || logger.ConsoleLevel >= logger.DebugLevel
+//@   ensures patch_state_kept: patch.table_inv() && !patch.locked()
 //@   panics_only_if configuration_rejected: true
 
 //@ func (m *DefMocker) Return
-//@   props C12
+//@   props C12 C01
 //@   requires receiver: m != nil && m.baseMocker != nil && !m.baseMocker.canceled
 //@   requires inv: mocker_inv(m.baseMocker)
+//@   requires patch_state: patch_state_ok()
 //@   assigns m.baseMocker.when, m.baseMocker.guard, m.baseMocker.imp, m.baseMocker.funcDef, running[m.baseMocker], stub_of[m.baseMocker], textmem, perm, mapof(patch.patches), anyfield(patch.patch, guard), anyfield(patch.Guard, applied),
-//@     | mutex_held[addr(patch.patchesLock)], rw_wheld[addr(memory.memoryAccessLock)], rw_rheld[addr(memory.memoryAccessLock)], anyfield(When, matches), anyfield(When, defaultReturns), anyfield(BaseMatcher, results)
+//@     | mutex_held[addr(patch.patchesLock)], rw_wheld[addr(memory.memoryAccessLock)], rw_rheld[addr(memory.memoryAccessLock)], placeholder_target[m.baseMocker.origin], varval, anyfield(When, matches), anyfield(When, defaultReturns), anyfield(BaseMatcher, results)
 //@   ensures stub_supersedes_callback: m.baseMocker.when != nil && running[m.baseMocker] == stub_of[m.baseMocker]
 //@   ensures continues_existing_configuration: old(m.baseMocker.when) != nil ==> m.baseMocker.when == old(m.baseMocker.when)
 //@   ensures[C13] too_few_return_values_rejected_up_front: old(m.baseMocker.when) == nil && m.funcDef != nil ==> len(value) >= rt_numout(rt_of(typeof(m.funcDef)))
 //@   ensures inv_kept: mocker_inv(m.baseMocker)
+//@   ensures entry_diverted_to_the_latest_instruction: old(m.baseMocker.when) == nil ==> m.baseMocker.guard != nil && typeof(m.baseMocker.guard) == typeid(*patchMockGuard) && unbox(m.baseMocker.guard, *patchMockGuard) != nil
+//@     | && diverted_somewhere(unbox(m.baseMocker.guard, *patchMockGuard).patchGuard, m.baseMocker.imp)
+//@     | && (!old(resolved_by_name(m.funcDef)) ==> patch.is_target_of(unbox(m.baseMocker.guard, *patchMockGuard).patchGuard.origin, old(proxy.func_target(m.funcDef))))
+//@   ensures patch_state_kept: patch.table_inv() && !patch.locked()
 //@   panics_only_if configuration_rejected: true
 
 // ---- C12: a package override given with Pkg applies to the next lookup only ------------------------------------------------
